@@ -857,3 +857,209 @@ Example C03_grid_builder_example :
   rmap (fun r => (l_content unit (fst r), snd r)) (lexec unit tt (l_init unit 3 BkStandard) (map unit_op cs)) = Ok (cols, nil).
 Proof. cbv zeta. split; [vm_compute; reflexivity|]. split; [vm_compute; reflexivity|]. split; vm_compute; reflexivity. Qed.
 (* [block of agent/c03lay -- END] *)
+
+(* ================================================================== 8. THE GRID CLASS Circuit END TO END  [block of agent/c03grid -- BEGIN]
+   The legacy fixed-depth class Circuit(nqubit, depth, gates): a depth x nqubit grid of placeholders 1, counters j (current column) and
+   s (qubits written in it; when s == nqubit the NEXT call moves on to column j + 1); statevector kron-reduces every column and multiplies
+   the column matrices from the left.  It shares the simulator's layered branch with the AlternativeCircuit classes (same calls:
+   Model/SimLoopLayered.v, same correspondence).  New here:
+     Model/GridBackend.v   executable model of Circuit.statevector (circuit.py:90-105), tied to the code by the exact correspondence run of
+                           checks/c03_grid.py (family grid_statevector: the real class driven with Gaussian-integer token matrices, directly
+                           filled grids and grids built through the real apply / I / CNOT / ECR, result vector resp. exception class);
+       column grid c = entry c of every row;  columns depth grid = [column 0; ...; column (depth-1)];
+       grid_product cols = ft.reduce(np.kron, column) per column, `@` from the left (IndexError when there is no column or no row; TypeError
+                           for scalar @ scalar: nothing written in the first two columns);
+       grid_statevector_cols n cols psi = grid_product, then `@ psi0` for psi0 on n qubits (ValueError when the product is not 2^n x 2^n, in
+                           particular when it is the 0-dimensional kron of placeholders only);  grid_statevector n depth grid = on the fields;
+     Proofs/GridBackendSpec.v, GridBuilder.v, SimLoopGrid.v, SimLoopGridC.v.
+     native_q x            the instruction's name is one the loop knows (rz / sx / x / cx / ecr / delay / measure / barrier): iname x <> OpOther;
+     depth_of used data    len(data) - n_rz + 1 over the instructions _preprocess_circuit keeps: the depth the simulator constructs Circuit with;
+     nf_perform_grid theta dur data psi0 : front_out -> res (list R)   the shot: calls -> gexec (C11's gstep) on a fresh Circuit(nqubit, depth_of)
+                           with the noise-free tokens -> its columns -> grid_statevector_cols -> Born rule over the basis states in index order. *)
+Require Import QG.Model.GridBackend QG.Proofs.GridBackendSpec QG.Proofs.GridBuilder QG.Proofs.SimLoopGrid QG.Proofs.SimLoopGridC.
+
+(* (i) C03_grid_builder_full (stated above as a Definition) holds: constructed with depth = the number of layers the shot fills, the grid
+   builder gstep fed the shot's operations never raises and its columns are exactly shot_layers *)
+Theorem C03_grid_builder : C03_grid_builder_full.
+Proof. exact grid_builder_full. Qed.
+Print Assumptions C03_grid_builder.
+
+(* the reason, for ANY matrix tokens and ANY history: whenever the layered builder lstep executes a history without reset() and ends on a
+   completed layer, the CNOT / ECR operations act on neighbouring indices (Circuit asserts it) and at most `depth` layers are completed, a
+   fresh Circuit(n, depth) executes the same history without exception and its columns are those layers, then untouched placeholder columns *)
+Theorem C03_grid_follows_layered :
+  forall (M : Type) (idM : M) (n depth : nat) (bk : backend_kind) (h : list (op M)) (l' : lstate M),
+  lexec M idM (l_init M n bk) h = Ok (l', nil) ->
+  Forall (fun o => is_reset M o = false) h ->
+  Forall (fun o => match o with OCNOT _ i k | OECR _ i k => Z.abs (i - k) = 1%Z | _ => True end) h ->
+  l_s M l' = 0%nat -> (List.length (l_mplist M l') <= depth)%nat ->
+  exists g', gexec M idM (g_init M n depth) h = Ok (g', nil) /\ g_n M g' = n /\ g_depth M g' = depth /\
+    g_content M g' = (l_mplist M l' ++ repeat (repeat (@Builders.EnOne M) n) (depth - List.length (l_mplist M l')))%list.
+Proof. exact grid_follows_layered. Qed.
+Print Assumptions C03_grid_follows_layered.
+
+(* (ii) Circuit.statevector IS StandardBackend.statevector on the columns: on a non-empty rectangular column list with at least one row the
+   two models return the same vector or the same exception (scalar_col c0: the first column is untouched, placeholders only
+   -- its kron is a scalar, and scalar @ scalar is a TypeError in the grid model; StandardBackend's model has no such clause) *)
+Theorem C03_grid_statevector_is_std :
+  forall (T : Type) (rI : T) (radd rmul : T -> T -> T) (n : nat) (c0 : list (Backends.entry T)) (rest : list (list (Backends.entry T)))
+         (psi : state T),
+  (1 <= n)%nat -> c0 <> nil -> scalar_col T c0 = false -> Forall (fun c => List.length c = List.length c0) rest ->
+  grid_statevector_cols T rI radd rmul n (c0 :: rest) psi
+  = match std T rI radd rmul n (c0 :: rest) psi with Ok (OutVec s) => Ok s | Ok OutEye => Err IndexError | Err e => Err e end.
+Proof. exact grid_is_std. Qed.
+Print Assumptions C03_grid_statevector_is_std.
+
+(* hence C01_std_spec's specification: on well-formed columns (C01's wf_layer n) it returns a vector state_eq to layers_sem of the columns
+   in order -- stated on the column list and on the object's fields *)
+Theorem C03_grid_statevector_spec :
+  forall (T : Type) (rO rI : T) (radd rmul rsub : T -> T -> T) (ropp : T -> T),
+  ring_theory rO rI radd rmul rsub ropp eq ->
+  forall (n : nat) (cols : list (list (Backends.entry T))) (psi : state T),
+  (1 <= n)%nat -> cols <> nil -> Forall (wf_layer T n) cols ->
+  exists out, grid_statevector_cols T rI radd rmul n cols psi = Ok out /\ state_eq T n out (layers_sem T radd rmul cols psi).
+Proof. exact grid_statevector_cols_spec. Qed.
+Print Assumptions C03_grid_statevector_spec.
+Theorem C03_grid_statevector_fields_spec :
+  forall (T : Type) (rO rI : T) (radd rmul rsub : T -> T -> T) (ropp : T -> T),
+  ring_theory rO rI radd rmul rsub ropp eq ->
+  forall (n depth : nat) (grid : list (list (Backends.entry T))) (psi : state T),
+  (1 <= n)%nat -> (1 <= depth)%nat -> Forall (wf_layer T n) (columns T depth grid) ->
+  exists out, grid_statevector T rI radd rmul n depth grid psi = Ok out /\
+    state_eq T n out (layers_sem T radd rmul (columns T depth grid) psi).
+Proof. exact grid_statevector_spec. Qed.
+Print Assumptions C03_grid_statevector_fields_spec.
+
+(* (iii) the depth rule of the simulator: when every instruction bears a name the loop knows, depth = len(data) - n_rz + 1 is exactly the
+   number of layers the shot fills (one per kept sx / x / cx / ecr / delay, plus the read-out layer) *)
+Theorem C03_grid_depth_rule :
+  forall (A D : Type) (theta : nat -> A) (dur : nat -> D) (T : Type) (rO rI : T) (radd rmul : T -> T -> T) (ropp : T -> T) (K : consts T A)
+         (used : list BinNums.N) (data : list SimRun.instr) (gs : list (group A D)) (n : nat),
+  Forall native_q data -> translate_groups A D theta dur used data = Ok gs ->
+  depth_of used data = Ok (List.length (shot_layers T rO rI radd rmul ropp A D K n gs)).
+Proof. exact depth_rule. Qed.
+Print Assumptions C03_grid_depth_rule.
+Theorem C03_grid_layer_count :
+  forall (T : Type) (rO rI : T) (radd rmul : T -> T -> T) (ropp : T -> T) (A D : Type) (K : consts T A) (n : nat) (gs : list (group A D)),
+  List.length (shot_layers T rO rI radd rmul ropp A D K n gs)
+  = (List.length (filter (fun g => match g with GRz _ _ => false | _ => true end) gs) + 1)%nat.
+Proof. exact shot_layers_count. Qed.
+Print Assumptions C03_grid_layer_count.
+
+(* ... and it is NEEDED: constructed with any larger depth (a kept instruction of another name -- `id`, `reset`, ... -- is counted in
+   len(data) but issues no call) the builder still never raises, the surplus columns stay untouched, and Circuit.statevector raises
+   ValueError: ft.reduce(np.kron, [1, ..., 1]) is 0-dimensional and `@` refuses it -- for every shot, and for every grid whose well-formed
+   columns are followed by an untouched one *)
+Theorem C03_grid_depth_too_large :
+  forall (T : Type) (rO rI : T) (radd rmul rsub : T -> T -> T) (ropp : T -> T),
+  ring_theory rO rI radd rmul rsub ropp eq ->
+  forall (n : nat) (cols : list (list (Backends.entry T))) (m : nat) (psi : state T),
+  (1 <= n)%nat -> cols <> nil -> Forall (wf_layer T n) cols ->
+  grid_statevector_cols T rI radd rmul n (cols ++ repeat (repeat (@Backends.EnOne T) n) (S m)) psi = Err ValueError.
+Proof. exact grid_depth_too_large. Qed.
+Print Assumptions C03_grid_depth_too_large.
+Theorem C03_grid_shot_too_deep :
+  forall (T : Type) (rO rI : T) (radd rmul rsub : T -> T -> T) (ropp : T -> T),
+  ring_theory rO rI radd rmul rsub ropp eq ->
+  forall (A D : Type) (K : consts T A) (ph : A -> Z * Z) (n : nat) (gs : list (group A D)) (dp : nat) (psi0 : state T),
+  (1 <= n)%nat -> Forall (group_wf A D n) gs -> Forall (group_adj A D) gs ->
+  (List.length (shot_layers T rO rI radd rmul ropp A D K n gs) < dp)%nat ->
+  exists sg, gexec (mat T) (mid2 T rO rI) (g_init (mat T) n dp) (shot_ops T rO rI radd rmul ropp A D K ph n gs) = Ok (sg, nil) /\
+    grid_statevector_cols T rI radd rmul n (map (map (ent_den T)) (g_content (mat T) sg)) psi0 = Err ValueError.
+Proof. exact grid_shot_too_deep. Qed.
+Print Assumptions C03_grid_shot_too_deep.
+
+(* (iv) END TO END for the grid class, same shape as C03_end_to_end_layered: for every commutative ring T with the named constants and a
+   conjugation, every Born reading: if run() accepts the arguments, the data is as Qiskit builds it on labels 0..n-1 with neighbouring
+   two-qubit gates and names the loop knows, every qubit is measured at most once and nqubit = n, then the loop succeeds with a well-formed
+   adjacent program prog and -- when the ideal weights do not all vanish -- run() around the grid noise-free shot (calls -> Circuit(n,
+   len(data) - n_rz + 1) -> columns -> kron-reduce and multiply -> Born rule) returns a dictionary whose value under every key t is the
+   normalised sum of the IDEAL circuit's Born weights over the basis states b with b[rank of k-th measured qubit] = t[k] *)
+Theorem C03_end_to_end_grid :
+  forall (T : Type) (rO rI : T) (radd rmul rsub : T -> T -> T) (ropp : T -> T),
+  ring_theory rO rI radd rmul rsub ropp eq ->
+  forall (A : Type) (K : consts T A), consts_ok T rI rmul ropp A K ->
+  forall cj : T -> T, conj_ok T rI rmul ropp A K cj ->
+  forall born : T -> Rdefinitions.R,
+  (forall x y, nrm T rmul cj x = nrm T rmul cj y -> born x = born y) -> (forall x, (0 <= born x)%R) ->
+  forall (D : Type) (theta : nat -> A) (dur : nat -> D) (ph : A -> Z * Z)
+         (a : args) (f : front_out) (data : list SimRun.instr) (psi0 : state T),
+  front a = Ok f -> a_circ a = CData true data -> Forall wf_qiskit data ->
+  NoDup (map fst (f_meas f)) -> f_nqubit f = BinInt.Z.of_nat (f_n f) ->
+  f_used f = id_layout (f_n f) -> Forall adjacent_q data -> Forall native_q data ->
+  exists prog, translate_layered A D theta dur (f_used f) data = Ok prog /\
+    Forall (NoiseFreeRun.wf_instr (f_n f)) prog /\ Forall NoiseFreeRun.adjacent_instr prog /\
+    let ideal := fun b => born (sem T radd rmul (ideal_items T rO rI radd rmul ropp A K prog) psi0 b) in
+    let total := rsum (map ideal (binary_vector (f_n f))) in
+    ((0 < total)%R ->
+     exists out, run_model Rdefinitions.R 0%R Rplus Rdiv rpos a
+                   (nf_perform_grid T rO rI radd rmul ropp A D K ph Rdefinitions.R born theta dur data psi0) = Ok out /\
+       forall t, List.length t = List.length (f_meas f) ->
+         lookup Rdefinitions.R t out = Some (marginal_sum (fun b => (ideal b / total)%R) (f_n f) (meas_ranks f) t)).
+Proof. exact end_to_end_grid. Qed.
+Print Assumptions C03_end_to_end_grid.
+
+(* the same at the complex numbers: constants KC, Born rule |amplitude|^2, every hypothesis on the scalars discharged *)
+Theorem C03_end_to_end_grid_C :
+  forall (D : Type) (theta : nat -> Rdefinitions.R) (dur : nat -> D) (ph : Rdefinitions.R -> Z * Z)
+         (a : args) (f : front_out) (data : list SimRun.instr) (psi0 : state C),
+  front a = Ok f -> a_circ a = CData true data -> Forall wf_qiskit data ->
+  NoDup (map fst (f_meas f)) -> f_nqubit f = BinInt.Z.of_nat (f_n f) ->
+  f_used f = id_layout (f_n f) -> Forall adjacent_q data -> Forall native_q data ->
+  exists prog, translate_layered Rdefinitions.R D theta dur (f_used f) data = Ok prog /\
+    Forall (NoiseFreeRun.wf_instr (f_n f)) prog /\ Forall NoiseFreeRun.adjacent_instr prog /\
+    let ideal := fun b => (Cmod (sem C Cplus Cmult (ideal_items C (RtoC 0) (RtoC 1) Cplus Cmult Copp Rdefinitions.R KC prog) psi0 b) ^ 2)%R in
+    let total := rsum (map ideal (binary_vector (f_n f))) in
+    ((0 < total)%R ->
+     exists out, run_model Rdefinitions.R 0%R Rplus Rdiv rpos a
+                   (nf_perform_grid C (RtoC 0) (RtoC 1) Cplus Cmult Copp Rdefinitions.R D KC ph Rdefinitions.R bornC theta dur data psi0) = Ok out /\
+       forall t, List.length t = List.length (f_meas f) ->
+         lookup Rdefinitions.R t out = Some (marginal_sum (fun b => (ideal b / total)%R) (f_n f) (meas_ranks f) t)).
+Proof. exact end_to_end_grid_C. Qed.
+Print Assumptions C03_end_to_end_grid_C.
+
+(* reading of the statements' vocabulary *)
+Theorem C03_end_to_end_grid_vocabulary :
+  (forall x, native_q x = (iname x <> OpOther)) /\
+  (forall used data, depth_of used data
+     = rbind (preprocess used (numbered data))
+         (fun d => Ok (List.length d - List.length (filter (fun jx : nat * SimRun.instr => is_rz (iname (snd jx))) d) + 1)%nat)) /\
+  (forall (T : Type) (grid : list (list (Backends.entry T))) depth,
+     columns T depth grid = map (fun c => map (fun row => nth c row Backends.EnOne) grid) (seq 0 depth)) /\
+  (forall (T : Type) (rI : T) (radd rmul : T -> T -> T) n cols psi, grid_statevector_cols T rI radd rmul n cols psi
+     = rbind (grid_product T rI radd rmul cols)
+         (fun p => if Nat.ltb 0 (fst p) && Nat.eqb (fst p) n then Ok (memoT n (mv T radd rmul n (snd p) psi)) else Err ValueError)) /\
+  (forall (T : Type) (rI : T) (radd rmul : T -> T -> T) n depth grid psi,
+     grid_statevector T rI radd rmul n depth grid psi = grid_statevector_cols T rI radd rmul n (columns T depth grid) psi) /\
+  (forall (T : Type) (c : list (Backends.entry T)), scalar_col T c = forallb (isOne T) c) /\
+  (forall (T : Type) (rO rI : T) (radd rmul : T -> T -> T) (ropp : T -> T) (A D : Type) (K : consts T A) (ph : A -> Z * Z) (V : Type) (born : T -> V)
+          theta dur data psi0 f,
+     nf_perform_grid T rO rI radd rmul ropp A D K ph V born theta dur data psi0 f
+     = rbind (translate_groups A D theta dur (f_used f) data) (fun gs =>
+       rbind (depth_of (f_used f) data) (fun dp =>
+       let n := BinInt.Z.to_nat (f_nqubit f) in
+       rbind (gexec (mat T) (mid2 T rO rI) (g_init (mat T) n dp) (shot_ops T rO rI radd rmul ropp A D K ph n gs)) (fun r =>
+       rbind (grid_statevector_cols T rI radd rmul n (map (map (ent_den T)) (g_content (mat T) (fst r))) psi0) (fun out =>
+       Ok (map (fun b => born (out b)) (binary_vector n))))))).
+Proof. repeat split. Qed.
+Print Assumptions C03_end_to_end_grid_vocabulary.
+
+(* non-vacuity: the circuit of C03_end_to_end_layered_example (whose other hypotheses are shown there) bears known names only and gets depth 5
+   = its five layers; the observation's circuit sx(0); id(1); cx(0,1); measures does not: depth 4 for three layers (C03_grid_shot_too_deep) *)
+Example C03_end_to_end_grid_example :
+  let data := [mkinstr OpRz [0%N] []; mkinstr OpDelay [3%N] []; mkinstr OpCx [2%N; 1%N] []; mkinstr OpBarrier [0%N; 1%N; 2%N; 3%N] [];
+               mkinstr OpDelay [1%N] []; mkinstr OpMeasure [1%N] [1%N]; mkinstr OpEcr [0%N; 1%N] []; mkinstr OpX [2%N] [];
+               mkinstr OpMeasure [0%N] [0%N]; mkinstr OpMeasure [2%N] [2%N]] in
+  let bad := [mkinstr OpSx [0%N] []; mkinstr OpOther [1%N] []; mkinstr OpCx [0%N; 1%N] []; mkinstr OpMeasure [0%N] [0%N]; mkinstr OpMeasure [1%N] [1%N]] in
+  let layers := fun used d => rmap (fun gs : list (group nat nat) =>
+                    (List.length (filter (fun g => match g with GRz _ _ => false | _ => true end) gs) + 1)%nat)
+                  (translate_groups nat nat (fun j => j) (fun j => j) used d) in
+  Forall native_q data /\ depth_of [0%N; 1%N; 2%N] data = Ok 5%nat /\ layers [0%N; 1%N; 2%N] data = Ok 5%nat /\
+  ~ Forall native_q bad /\ depth_of [0%N; 1%N] bad = Ok 4%nat /\ layers [0%N; 1%N] bad = Ok 3%nat.
+Proof.
+  cbv zeta. split. { repeat (apply Forall_cons; [unfold native_q; cbn; discriminate|]). apply Forall_nil. }
+  split; [vm_compute; reflexivity|]. split; [vm_compute; reflexivity|]. split.
+  { intros F. apply Forall_inv_tail in F. apply Forall_inv in F. apply F. reflexivity. }
+  split; vm_compute; reflexivity.
+Qed.
+(* [block of agent/c03grid -- END] *)
